@@ -263,7 +263,9 @@ impl DirectCacheManager {
             let mut buf = Vec::new();
             {
                 let mut writer = Writer::new(&mut buf);
-                let value_do = v.value.to_do(key);
+                // (CacheValue::to_do knows the value only: the expiry belongs to the item)
+                let mut value_do = v.value.to_do(key);
+                value_do.timeout = v.expire;
                 writer.write_message(&value_do)?;
             }
             let record = SnapshotRecordDto {
